@@ -192,7 +192,7 @@ func (ce *cer) runOnce(timeout time.Duration) (string, []error) {
 		}
 		hosts = append(hosts, h)
 	}
-	ctx, cancel := context.WithTimeout(context.Background(), 12*timeout)
+	ctx, cancel := context.WithTimeout(context.Background(), 5*timeout)
 	defer cancel()
 	defJSON, err := json.MarshalIndent(ce.def, "", " ")
 	hx.Must(err)
@@ -285,12 +285,13 @@ func timeoutClass(errs []error) bool {
 	return true
 }
 
-// run executes the ceremony with a growing protocol time-out: completion within a given wall-clock
+// run executes the ceremony with a growing protocol time-out (two attempts, at most 40 s + 125 s, below the
+// harness watchdog): completion within a given wall-clock
 // time is not part of the property (a loaded machine must not turn into an alarm); only a ceremony
 // that fails with every time-out is reported. A refusal that every node reports before any
 // networking (bad threshold, bad amounts) is not retried.
 func (ce *cer) run() {
-	for attempt, to := range []time.Duration{8 * time.Second, 20 * time.Second, 45 * time.Second} {
+	for attempt, to := range []time.Duration{8 * time.Second, 25 * time.Second} {
 		dir, errs := ce.runOnce(to)
 		ce.errs = errs
 		if allNil(errs) {
@@ -300,7 +301,7 @@ func (ce *cer) run() {
 			return
 		}
 		_ = os.RemoveAll(dir)
-		if !timeoutClass(errs) || attempt == 2 {
+		if !timeoutClass(errs) || attempt == 1 {
 			return
 		}
 	}
